@@ -6,7 +6,7 @@ import math
 import os
 from fractions import Fraction
 
-from harness import core
+from harness import core, facts
 
 F = Fraction
 
@@ -524,10 +524,20 @@ def binom_ok(phat, p, n):
 def run(ctx):
     rng = ctx.rng
     tie = None
-    ok, txt = core.prove(ctx)
-    if not ok:
-        tie = 'proof obligations of props/C14.v no longer check: ' + txt[-1500:]
-        core.coq_make(['Empirical.vo'])
+    try:
+        ctx.coverage['translated_from_source'] = extract(ctx)
+    except facts.TieBroken as e:
+        tie = 'translation of pyhf/infer/calculators.py (EmpiricalDistribution, ToyCalculator.pvalues) to Gallina failed (harness/props/c14.py:extract): %s' % e
+        core.coq_make(['Empirical.vo', 'Run.vo'])
+    if tie is None:
+        ok, txt = core.prove(ctx)
+        if not ok:
+            why = ('the functions translated from the source no longer coincide with the hand model (coq/TieEmpirical.v, C14_source_is_model_*): '
+                   if ('Tie' in txt or 'source_is_model' in txt or 'Gen.v' in txt) else 'proof obligations of props/C14.v no longer check: ')
+            tie = why + txt[-1500:]
+            core.coq_make(['Empirical.vo', 'Run.vo'])
+    ctx.trusted += ['harness/props/c14.py:extract + harness/props/tie_translate.py (python ast -> Gallina for EmpiricalDistribution.pvalue/expected_value and '
+                    'ToyCalculator.pvalues; fail closed): C14_source_is_model_* prove the translated definitions equal to the hand model']
     ctx.trusted += ['the random samplers (scipy.stats rvs for numpy/jax, torch.distributions, tensorflow_probability) are NOT modelled: the distributional claims are '
                     'validated statistically with fixed seeds and 6-sigma bands, never proved',
                     'exact Poisson tail probabilities are proposed by mpmath and every one used is certified by an `interval` goal compiled in the same run',
